@@ -3,6 +3,7 @@ package schemagen
 import (
 	"strconv"
 	"strings"
+	"unicode/utf8"
 )
 
 // Lexical classes of a text according to the harness's own tokenizer.
@@ -104,6 +105,12 @@ func Tokenize(src string) (toks []Token, class int, why string) {
 			toks = append(toks, Token{'p', string(c)})
 			i++
 		case c >= 0x80:
+			// a private-use character is no letter and no punctuation of the grammar: it can be no token
+			if rn, sz := utf8.DecodeRuneInString(src[i:]); rn >= 0xE000 && rn <= 0xF8FF {
+				bad("private-use character")
+				i += sz
+				continue
+			}
 			exotic("non-ASCII byte")
 			i++
 		default:
